@@ -789,7 +789,6 @@ class PybindWrapper:
         Args:
             source: Interface file which forms the submodule.
         """
-        filename = Path(source).name
         module_name = Path(source).stem
 
         # Read in the complete interface (.i) file
@@ -799,7 +798,8 @@ class PybindWrapper:
         cc_content = self.wrap_file(content, module_name=module_name)
 
         # Generate the C++ code which Pybind11 will use.
-        with open(filename.replace(".i", ".cpp"), "w", encoding="UTF-8") as f:
+        # (an interface file may also be called <name>.h: never write over it)
+        with open(module_name + ".cpp", "w", encoding="UTF-8") as f:
             f.write(cc_content)
 
     def wrap(self, sources, main_module_name):
